@@ -6,7 +6,7 @@
 From Coq Require Import String.
 From Coq Require Import List NArith Bool.
 From Sia Require Import Codec.Canonical Codec.PolicyWire Codec.PolicyBounds Prim.Tok Codec.Schema Codec.Shape Codec.Irregular Gen.Schemas Codec.Oblig.
-From Sia Require Prim.Result Ledger.Types Ledger.Mid Ledger.Validate Ledger.Apply Ledger.VApply Ledger.Marks1 Ledger.Wk2.
+From Sia Require Prim.Result Ledger.Types Ledger.Mid Ledger.Validate Ledger.Apply Ledger.VApply Ledger.Marks1 Ledger.Wk2 Ledger.Kinds.
 Import ListNotations.
 
 Theorem C10_slice_alloc_bound : forall recog s b l r,
@@ -57,3 +57,12 @@ Theorem C10_accepted_block_applies : forall (kind_of : Ledger.Types.id -> Ledger
   exists s' m, Ledger.Apply.apply_block net s b = Prim.Result.Ok (s', m).
 Proof. exact Ledger.Wk2.accepted_block_applies. Qed.
 Print Assumptions C10_accepted_block_applies.
+
+(* the same with the ID discipline as a decidable check of the block: every ID the block mentions is declared with the kind
+   of element it names ([declsB]); if no ID is declared with two kinds the kind assignment exists *)
+Theorem C10_accepted_consistent_block_applies : forall H net vt pt se sd s b,
+  Ledger.Apply.validate_block H net vt pt se sd s b = Prim.Result.Ok tt -> Ledger.Kinds.consistent (Ledger.Kinds.declsB b) = true ->
+  (exists o, Ledger.Validate.foundation_subsidy net s = Prim.Result.Ok o) ->
+  exists s' m, Ledger.Apply.apply_block net s b = Prim.Result.Ok (s', m).
+Proof. exact Ledger.Kinds.accepted_consistent_block_applies. Qed.
+Print Assumptions C10_accepted_consistent_block_applies.
